@@ -62,7 +62,7 @@ def mutate_rule(rnd, rule, pd):
         return RuleDescriptor(id=rule.id, field_descriptors=fds), 'none'
     i = rnd.randrange(len(fds))
     f = fds[i]
-    kind = rnd.choice(['flipbit', 'lengthen', 'shorten', 'drop', 'dup', 'swap', 'dir', 'id', 'len', 'mapdel', 'mapzeros', 'longer-than-field'])
+    kind = rnd.choice(['flipbit', 'lengthen', 'shorten', 'drop', 'dup', 'swap', 'dir', 'id', 'id-related', 'len', 'mapdel', 'mapzeros', 'longer-than-field'])
     if kind == 'flipbit' and isinstance(f.target_value, Buffer) and f.target_value.length > 0:
         b = bits_of(f.target_value)
         j = rnd.randrange(len(b))
@@ -86,6 +86,17 @@ def mutate_rule(rnd, rule, pd):
         f.direction = rnd.choice([DI.UP, DI.DOWN, DI.BIDIRECTIONAL])
     elif kind == 'id':
         f.id = pd.fields[rnd.randrange(len(pd.fields))].id
+    elif kind == 'id-related':
+        # another REGISTERED identifier whose text contains the packet field's identifier or is contained in it ('CoAP:Token' / 'CoAP:Token
+        # Length', 'IPv4:Flags' ...), or the identifier itself followed by a space: different identifiers, the descriptor no longer applies
+        from schc_util import FID as _FID
+        pid_ = pd.fields[min(i, len(pd.fields) - 1)].id
+        ps_ = str(getattr(pid_, 'value', pid_))
+        rel_ = [x for x in _FID if x != ps_ and (ps_ in x or x in ps_)]
+        if rel_ and rnd.random() < 0.8:
+            f.id = rnd.choice(rel_)
+        else:
+            f.id = rnd.choice([ps_ + ' ', ' ' + ps_, ps_[:-1], ps_ + ps_])
     elif kind == 'len':
         f.length = rnd.choice([0, f.length + 1, max(0, f.length - 1), f.length + 8])
     elif kind == 'mapzeros' and isinstance(f.target_value, MatchMapping):
